@@ -1,7 +1,7 @@
 ---------------------------- MODULE MCResonaate ----------------------------
 (* Concrete constants for the exhaustive / simulation configurations of      *)
 (* Resonaate.tla (cfg files cannot express functions, records or tuples).     *)
-EXTENDS Resonaate
+EXTENDS Resonaate, Json
 
 T1 == {"t1"}
 T2 == {"t1", "t2"}
@@ -25,6 +25,12 @@ PolGreedy     == [e \in Engines |-> "greedy"]
 PolRandom     == [e \in Engines |-> "random"]
 PolAllVisible == [e \in Engines |-> "allvisible"]
 PolMixed      == [e \in Engines |-> IF e = "e1" THEN "greedy" ELSE "munkres"]
+
+\* behaviours for spec -> impl replay: in -simulate mode (one worker) every state of every
+\* behaviour prints the choices the harness needs (completion orders via pend, environment
+\* outcomes via visM / slewOK / hit); a new behaviour starts when lvl = 1
+SimEmit == PrintT("SIM " \o ToJson([lvl |-> TLCGet("level"), pc |-> pc, k |-> k, eng |-> eng, pend |-> pend,
+                                      visM |-> visM, decision |-> decision, slewOK |-> slewOK, hit |-> hit]))
 
 EvRec(id, kind, t0, t1, who, en, tgt, planned) ==
   [id |-> id, kind |-> kind, t0 |-> t0, t1 |-> t1, who |-> who, eng |-> en, tgt |-> tgt, planned |-> planned]
